@@ -197,10 +197,13 @@ type c04Case struct {
 	Ans     vAnswer
 	Variant string // "", "no-voucher", "no-selector", "cid-mismatch", "other-type"
 	NewMgr  bool   // restart kinds: a new manager on the same datastore (voucher type possibly not re-registered)
+	// restart kinds: voucher type of a follow-up voucher the initiator sent on the channel before the restart ("" = none).
+	// The restart must still be decided by the validator of the request's (= the channel's original) voucher type.
+	FollowUp string
 }
 
 func (c c04Case) String() string {
-	return fmt.Sprintf("%s reg=%v ans={%s} variant=%q newmgr=%v", kindNames[c.Kind], c.Reg, c.Ans, c.Variant, c.NewMgr)
+	return fmt.Sprintf("%s reg=%v ans={%s} variant=%q newmgr=%v followup=%q", kindNames[c.Kind], c.Reg, c.Ans, c.Variant, c.NewMgr, c.FollowUp)
 }
 
 func c04One(x *mc.Cell, c c04Case) {
@@ -231,6 +234,14 @@ func c04One(x *mc.Cell, c c04Case) {
 			}
 			mc.Wait()
 			_ = n.H().OnTransferInitiated
+			if c.FollowUp != "" {
+				fv := doubles.Voucher(c.FollowUp, "follow-up")
+				vr, err := message.VoucherRequest(chid.ID, &fv)
+				if err != nil {
+					panic(err)
+				}
+				n.RecvRequest(doubles.PeerB, vr)
+			}
 			if c.NewMgr {
 				img := n.DS.Image()
 				n.Stop()
@@ -295,7 +306,11 @@ func c04One(x *mc.Cell, c c04Case) {
 		shouldValidate := hasT(c.Reg) && wellFormed
 		ctx := fmt.Sprintf("%s\n  %s", c, d)
 		sig := func(s string) string {
-			return fmt.Sprintf("%s;kind=%s;variant=%s;reg=%s;acc=%v;err=%v", s, kindNames[c.Kind], c.Variant, strings.Join(c.Reg, "+"), c.Ans.Accepted, c.Ans.Err)
+			fu := ""
+			if c.FollowUp != "" {
+				fu = ";followup=" + c.FollowUp
+			}
+			return fmt.Sprintf("%s;kind=%s;variant=%s;reg=%s;acc=%v;err=%v%s", s, kindNames[c.Kind], c.Variant, strings.Join(c.Reg, "+"), c.Ans.Accepted, c.Ans.Err, fu)
 		}
 		x.Outcome(fmt.Sprintf("%v|%v|%s|%v", legit, exists, via, retErr))
 		if shouldValidate {
@@ -408,14 +423,20 @@ func c04Cells(x *mc.Cell, kinds []int, full bool) {
 					if k >= kRestartPushNet {
 						newMgrs = []bool{false, true}
 					}
+					followUps := []string{""}
+					if k >= kRestartPushNet && v == "" {
+						followUps = []string{"", "U", "T"}
+					}
 					for _, nm := range newMgrs {
-						if x.TimeUp() {
-							x.Cap("c04: time cap")
-							return
+						for _, fu := range followUps {
+							if x.TimeUp() {
+								x.Cap("c04: time cap")
+								return
+							}
+							cs := c04Case{Kind: k, Reg: reg, Ans: a, Variant: v, NewMgr: nm, FollowUp: fu}
+							x.Sample(cs.String())
+							c04One(x, cs)
 						}
-						cs := c04Case{Kind: k, Reg: reg, Ans: a, Variant: v, NewMgr: nm}
-						x.Sample(cs.String())
-						c04One(x, cs)
 					}
 				}
 			}
